@@ -16,6 +16,9 @@ import (
 type mark struct {
 	off, w int
 	kind   string // "len" (byte length of a string/byte slice), "count" (elements of a slice/map), "code", "opt", "bool"
+	// alloc: the decoder allocates this many bytes straight from the prefix (byte slices). For 4/8 byte
+	// prefixes the fault injector keeps such values below 2^22 except in rare "huge" runs (see faults.go).
+	alloc bool
 }
 
 type frag struct {
@@ -63,6 +66,7 @@ func refEncode(n *node, v *val) *frag {
 		f.le(v.u, n.bits/8)
 	case kString, kBytes:
 		f.marked("len", uint64(len(v.b)), n.prefix)
+		f.marks[len(f.marks)-1].alloc = n.kind == kBytes
 		f.put(v.b...)
 	case kByteArray:
 		f.code(n)
